@@ -68,6 +68,7 @@ func genBlockPlan(seed uint64, thorough bool) *Plan {
 	p.Knobs.Sticky = []int{0, 20, 50, 80}[g.r.IntN(4)]
 	p.Knobs.Stall = []int{0, 20, 20, 40}[g.r.IntN(4)]
 	p.Knobs.PCT = []int{0, 0, 0, 2, 3}[g.r.IntN(5)]
+	p.Knobs.UnlockYield = g.chance(2)
 	p.Knobs.Frag = g.chance(4)
 	class := g.r.IntN(5)
 	if class == 4 {
